@@ -100,7 +100,8 @@ func Names(s DirSpec) []string {
 		case 2:
 			return fmt.Sprintf("n %d é☃", i) // spaces and unicode
 		case 5: // names that are not valid UTF-8 and differ only inside the invalid bytes
-			return fmt.Sprintf("r%cs%c%d", []byte{0xe9, 0xe8, 0xff, 0xc0}[i%4], []byte{0xe9, 0xe8}[(i/4)%2], i/8)
+			// raw bytes, not runes: "r\xe9s\xe8<n>" is not valid UTF-8
+			return "r" + string([]byte{[]byte{0xe9, 0xe8, 0xff, 0xc0}[i%4]}) + "s" + string([]byte{[]byte{0xe9, 0xe8}[(i/4)%2]}) + fmt.Sprint(i/8)
 		case 4: // very short names: one character, then two
 			const al = "abcdefghijklmnopqrstuvwxyz0123456789ABCDEF"
 			if i < len(al) {
